@@ -321,7 +321,7 @@ func (c c32Case) sig() string {
 	return fmt.Sprintf("%s/%s/%d/%s/%v/%s/%s/%s/%s/%v/%v/%d", c.Kind, sz, len(c.PartSizes), c.ListKind, c.ResendPart, c.Alg, c.Checksum, c.Broker, c.S3Fault, c.HasKey, c.CompleteTwo, c.Partition)
 }
 
-var c32BrokerModes = []string{"ok", "ok", "ok", "code:6", "code:3", "code:10", "code:7", "code:2", "code:29", "code:87", "code:-1", "code:19", "no_partition", "other_partition", "garbage", "garbage_hdr", "close", "half"}
+var c32BrokerModes = []string{"ok", "ok", "ok", "ok", "ok", "ok", "ok", "ok", "ok", "ok", "ok", "ok", "code:6", "code:3", "code:10", "code:7", "code:2", "code:29", "code:87", "code:-1", "code:19", "no_partition", "other_partition", "garbage", "garbage_hdr", "close", "half"}
 
 func c32Digest(alg string, v []byte) string {
 	switch alg {
@@ -477,7 +477,7 @@ func TestVerifC32Upload(t *testing.T) {
 		return c32HTTPResult{Status: resp.StatusCode, Body: b}, err
 	}
 
-	nSingle, nMulti := r.N(70, 700), r.N(45, 450)
+	nSingle, nMulti := r.N(80, 800), r.N(50, 500)
 	if v, err := strconv.Atoi(os.Getenv("C32_DEV_N")); err == nil && v > 0 {
 		nSingle, nMulti = v, v // development knob only; never set by bin/check
 	}
@@ -599,8 +599,16 @@ func TestVerifC32Upload(t *testing.T) {
 			r.Violation("success_but_object_missing", fmt.Sprintf("case %d (%s): status %d, no object at envelope key %q", ci, c.Kind, final.Status, env.Key), replay)
 		case int64(len(obj)) != *env.Size || c32Digest("sha256", obj) != strings.ToLower(env.SHA256):
 			class := "success_but_object_differs_from_envelope"
-			if subset {
+			partRetried := false
+			for _, l := range trace {
+				partRetried = partRetried || strings.Contains(l, "(retry) -> 200")
+			}
+			switch {
+			case subset:
 				class = "completion_with_subset_of_parts_accepted"
+			case partRetried && int64(len(obj)) == *env.Size && bytes.Equal(obj, data):
+				// the object is what the client sent, the envelope digest is not its digest
+				class = "envelope_sha256_wrong_after_failed_part_was_retried"
 			}
 			r.Violation(class, fmt.Sprintf("case %d (%s): status %d, envelope size=%d sha256=%s.. but the stored object has %d bytes sha256=%s.. (uploaded parts %v, completion listed %v)", ci, c.Kind, final.Status, *env.Size, env.SHA256[:12], len(obj), c32Digest("sha256", obj)[:12], c.PartSizes, listedParts), replay)
 		default:
@@ -648,6 +656,7 @@ func TestVerifC32Upload(t *testing.T) {
 	r.Floor("final_requests_single", 50*q)
 	r.Floor("final_requests_multipart", 25*q)
 	r.Floor("final_2xx", 20*q)
+	r.Floor("success_acknowledged_with_code_0", 12*q)
 	r.Floor("final_error_status", 20*q)
 	r.Floor("broker_modes_reached", 10)
 	r.Floor("produce_requests_seen_by_broker", 40*q)
